@@ -37,6 +37,7 @@ extern "C" int LLVMFuzzerTestOneInput(const uint8_t *data, size_t size)
 	std::string text = fdp.ConsumeRemainingBytesAsString();
 	if (names_outside_path(text)) { g_cnt["skipped_outside_path"]++; return 0; }
 	if (const char *k = known_trigger(text)) { g_cnt[std::string("skipped_known_") + k]++; return 0; }
+	if (const char *k = known_trigger_db(text)) { g_cnt[std::string("skipped_known_") + k]++; return 0; }
 	uint8_t mb = 0xdb;
 	uint64_t h = fnv((const uint8_t *)text.data(), text.size(), fnv(&mb, 1));
 
@@ -48,7 +49,8 @@ extern "C" int LLVMFuzzerTestOneInput(const uint8_t *data, size_t size)
 	bool planted = !contains(text, "C08MARK");
 	if (planted) { I->AddError((std::string(MARK_E) + "\n").c_str()); I->AddWarning((std::string(MARK_W) + "\n").c_str()); }
 
-	int rc = guarded("LoadDatabaseString", [&] { return I->LoadDatabaseString(text.c_str()); });
+	std::string dbtext = pregrow_line() + text;      // F5 exclusion by construction (empty in strict replays)
+	int rc = guarded("LoadDatabaseString", [&] { return I->LoadDatabaseString(dbtext.c_str()); });
 	CallInfo ci = check_after_call(I, "LoadDatabaseString", rc, true, planted);
 	bool failed = ci.failed;
 	// classification of the database text itself
@@ -84,8 +86,9 @@ extern "C" int LLVMFuzzerTestOneInput(const uint8_t *data, size_t size)
 		g_cnt[std::string("follow_") + c2.cls]++;
 		failed = failed || c2.failed;
 	}
-	if (failed && known_state_unnumbered(I)) {
-		g_cnt["skipped_known_unnumbered_solutions_survive_reload"]++;
+	const char *ks = failed ? known_state_after_failure(I) : 0;
+	if (ks) {
+		g_cnt[std::string("skipped_known_") + ks]++;
 		g_I = 0; g_inlib++; delete I; g_inlib--;
 		g_I = new FI;
 		g_fresh = false;
